@@ -745,6 +745,91 @@ func runH12RefreshOnEndingAllocation(vt *vhT) {
 	vt.Obs("ok")
 }
 
+
+// runH12SlowCreatedVsTeardown: while the application's OnAllocationCreated handler is still running, the allocation it
+// announces is already registered, so another goroutine can find it and end or refresh it (the manager is used from one
+// goroutine per listener and per stream connection, and its methods are exported).  Whatever such a goroutine does must not
+// crash on a half-initialised allocation, and the manager's lock must be free afterwards.
+func runH12SlowCreatedVsTeardown(vt *vhT) {
+	for _, how := range []string{"delete", "refresh", "close"} {
+		vt.OpSync("slowcb OnAllocationCreated concurrent-%s 1", how)
+		entered, release := make(chan struct{}, 1), make(chan struct{})
+		m, err := NewManager(ManagerConfig{
+			LeveledLogger: logging.NewDefaultLoggerFactory().NewLogger("h12"),
+			AllocatePacketConn: func(AllocateListenerConfig) (net.PacketConn, net.Addr, error) {
+				c, err := net.ListenPacket("udp4", "127.0.0.1:0")
+				if err != nil {
+					return nil, nil, err
+				}
+
+				return c, c.LocalAddr(), nil
+			},
+			AllocateListener: func(AllocateListenerConfig) (net.Listener, net.Addr, error) { return nil, nil, net.ErrClosed },
+			AllocateConn:     func(AllocateConnConfig) (net.Conn, error) { return nil, net.ErrClosed },
+			EventHandler: EventHandler{OnAllocationCreated: func(_, _ net.Addr, _, _, _ string, _ net.Addr, _ int) {
+				entered <- struct{}{}
+				<-release
+			}},
+		})
+		if err != nil {
+			vt.Alarm("h12-setup", "NewManager: %v", err)
+			vt.Obs("ok")
+
+			continue
+		}
+		sock, _ := net.ListenPacket("udp4", "127.0.0.1:0")
+		ft := &FiveTuple{Protocol: UDP, SrcAddr: &net.UDPAddr{IP: net.IPv4(127, 0, 0, 1), Port: 40000}, DstAddr: sock.LocalAddr()}
+		created := make(chan struct{})
+		go func() {
+			defer close(created)
+			_, _ = m.CreateAllocation(ft, sock, proto.ProtoUDP, 0, time.Minute, "alice", "", proto.RequestedFamilyIPv4)
+		}()
+		select {
+		case <-entered:
+		case <-time.After(5 * time.Second):
+			vt.Alarm("h12-setup", "OnAllocationCreated was not called")
+			vt.Obs("ok")
+
+			continue
+		}
+		panicked := make(chan any, 1)
+		go func() {
+			defer func() { panicked <- recover() }()
+			switch how {
+			case "delete":
+				m.DeleteAllocation(ft)
+			case "refresh":
+				if a := m.GetAllocation(ft); a != nil {
+					a.Refresh(time.Minute)
+				}
+			case "close":
+				_ = m.Close()
+			}
+		}()
+		select {
+		case r := <-panicked:
+			if r != nil {
+				vt.Alarm("half-initialised-allocation-published", "%s of an allocation whose OnAllocationCreated handler was still running panicked: %v "+
+					"(the allocation was registered before it was fully initialised)", how, r)
+			}
+		case <-time.After(5 * time.Second):
+			vt.Alarm("lock-held-on-return", "%s of an allocation whose OnAllocationCreated handler was still running did not return within 5 s", how)
+		}
+		close(release)
+		<-created
+		locked := make(chan int, 1)
+		go func() { locked <- m.AllocationCount() }()
+		select {
+		case <-locked:
+			_ = m.Close()
+		case <-time.After(5 * time.Second):
+			vt.Alarm("lock-held-on-return", "the manager's lock is still held after %s raced a slow OnAllocationCreated", how)
+		}
+		_ = sock.Close()
+		vt.Obs("ok")
+	}
+}
+
 func TestVerifH12(t *testing.T) {
 	vt := vhOpen("h12")
 	defer vt.Close()
@@ -770,6 +855,8 @@ func TestVerifH12(t *testing.T) {
 	runH12CallbackVsDataPath(vt)
 	vt.Flush()
 	runH12RefreshOnEndingAllocation(vt)
+	vt.Flush()
+	runH12SlowCreatedVsTeardown(vt)
 	vt.Flush()
 	rounds := 1500
 	if vt.Thorough() {
